@@ -466,6 +466,28 @@ def _rewire_lemma(seed, tier):
         yield {"conv": case["converter"], "rewiring": case["rewiring"]}
 
 
+def _c12_keep(kind):
+    def gen(seed, tier):
+        src = _remap_uri_cases if kind == "remap" else _rewire_cases
+        for case in src(seed, tier):
+            c = case["converter"]
+            us = [x + "1" for r in c.records for x in [r.uri_prefix, *r.uri_prefix_synonyms]][:3] + ["zzz"]
+            ps = worlds.prefix_pool(c)[:3] + ["zz"]
+            key = "remapping" if kind == "remap" else "rewiring"
+            for u in us:
+                if kind == "remap":
+                    yield {"conv": c, "remapping": case[key], "u": u}
+                else:
+                    yield {"conv": c, "rewiring": case[key], "u": u, "p": ps[0]}
+            if kind == "remap":
+                for p in ps:
+                    yield {"conv": c, "remapping": case[key], "p": p}
+    return gen
+
+
+DOMAINS["C12.remap_uri_keeps_every_uri"] = lambda seed, tier: (c for c in _c12_keep("remap")(seed, tier) if "u" in c)
+DOMAINS["C12.remap_uri_keeps_curie_prefixes"] = lambda seed, tier: (c for c in _c12_keep("remap")(seed, tier) if "p" in c)
+DOMAINS["C12.rewire_keeps_every_uri_and_name"] = _c12_keep("rewire")
 DOMAINS["C12.rewire_idempotent"] = _rewire_lemma
 DOMAINS["C12.rewire_unknown_adds_nothing"] = _rewire_lemma
 
